@@ -104,3 +104,11 @@ Theorem C14_integer_literal_roundtrip : forall z tail, (0 <= z <= i64_max)%Z -> 
   num_result (z_to_str z ++ tail) = POk (EInt z) tail.
 Proof. exact num_roundtrip. Qed.
 Print Assumptions C14_integer_literal_roundtrip.
+
+(* the same through the binding parser (Value::parse_data_binding): the object-inner detection does
+   not fire on a printed expression, the expression is read back, and the scan resumes right after
+   the closing braces *)
+Theorem C14_binding_print_parse_roundtrip : forall names e, wf e -> forall rest,
+  ExprParse.binding false (sx_core names e ++ 125%N :: 125%N :: rest) = (Some e, rest).
+Proof. intros names e H rest. exact (print_parse_binding names num_roundtrip z_to_str_head e H rest). Qed.
+Print Assumptions C14_binding_print_parse_roundtrip.
